@@ -11,6 +11,7 @@ import (
 	"encoding/binary"
 	"fmt"
 	"net/http/httptest"
+	"strings"
 	"sync"
 	"testing"
 	"time"
@@ -117,8 +118,24 @@ func genC05For(entries []string) func(t *rapid.T) c05Case {
 		if c05Framed(c.Entry) {
 			minLen = 5
 		}
-		kind := rapid.SampledFrom([]string{"size", "size", "size", "truncate", "truncate", "random", "dup", "drop", "version", "flip", "none", "size2"}).Draw(t, "mut")
+		kinds := []string{"size", "size", "size", "truncate", "truncate", "random", "dup", "drop", "version", "flip", "none", "size2"}
+		if !c05IsResponse(c.Entry) && c.Entry != "readHeader" && c.Entry != "headersFromFrame" && c.Entry != "subscriber.callback" && c.Entry != "nats.sub" && c.Entry != "stomp.sub" {
+			kinds = append(kinds, "huge-name")
+		}
+		kind := rapid.SampledFrom(kinds).Draw(t, "mut")
 		switch kind {
+		case "huge-name":
+			// a well-formed request for an unknown method whose name is so long that the
+			// UNKNOWN_METHOD reply (which repeats it) cannot fit a bounded reply buffer
+			n := rapid.SampledFrom([]int{300 * 1024, 520 * 1024, 700 * 1024, 1000 * 1024}).Draw(t, "namelen")
+			hdrs := []KV{kv("_opid", "7"), kv("_cid", "cid-1")}
+			msg := thriftMessage(c.Proto, strings.Repeat("m", n), thrift.CALL, &strStruct{Name: "x_args", ID: 1, V: &val})
+			data = frameContent(hdrs, msg)
+			if c05Framed(c.Entry) {
+				data = refFrame(data)
+			}
+			c.Desc = fmt.Sprintf("unknown method with a %d byte name", n)
+			c.SizeMut = true
 		case "size", "size2":
 			n := 1
 			if kind == "size2" {
